@@ -136,8 +136,18 @@ def _yield_event(t, control, status, top):
     return ev
 
 
+def _real(v, scale):
+    """program units -> the Python value written into the share (exact: ints, dyadic floats)"""
+    if isinstance(v, (bool, str)):
+        return v
+    x = Fraction(v, scale)
+    return int(x) if x.denominator == 1 else float(x)
+
+
 def run(prog, script=None, envs=None, max_ticks=8, quantum=None, workdir=None, keep_script=False):
-    """Build and run `prog`. envs: {tick number: [(share, value), ...]} applied at the boundary BEFORE that tick.
+    """Build and run `prog`. envs: {tick number: [(share, value), ...]} applied at the boundary BEFORE that tick
+    (numbers in the units of the program, 1/prog["scale"]; strings and booleans as they are); (share, value, field)
+    writes another field of the share (event EnvF).
     The run is interrupted (keyboard interrupt between ticks) before tick `max_ticks` unless it ended earlier.
     Returns dict(events=[...], error=None|str, built=bool, script=text)."""
     _install()
@@ -170,14 +180,23 @@ def run(prog, script=None, envs=None, max_ticks=8, quantum=None, workdir=None, k
             t.runner = RunnerProxy(t, t.runner)
     orig = storing.Store.changeStamp
     state = {"n": 0}
+    scale = prog.get("scale", 1)
+    fielded = prog.get("fielded", ())
 
     def change_stamp(self, stamp):
         n = state["n"]
         if n > 0:
-            for (s, v) in envs.get(n, ()):
+            for (s, v, *field) in envs.get(n, ()):
                 sh = self.fetch(s)
-                sh.value = v
-                REC.events.append({"ev": "Env", "share": s, "val": v})
+                if field:      # a write of another field of the share (added if the share does not have it)
+                    sh.update(**{field[0]: _real(v, scale)})
+                    REC.events.append({"ev": "EnvF", "share": s, "val": v})
+                elif s in fielded:
+                    sh.update(**{emitter.MAIN: _real(v, scale)})
+                    REC.events.append({"ev": "Env", "share": s, "val": v})
+                else:
+                    sh.value = _real(v, scale)
+                    REC.events.append({"ev": "Env", "share": s, "val": v})
             if n >= max_ticks:
                 REC.events.append({"ev": "Interrupt"})
                 raise KeyboardInterrupt()
@@ -200,7 +219,8 @@ def run(prog, script=None, envs=None, max_ticks=8, quantum=None, workdir=None, k
         storing.Store.changeStamp = orig
     REC.events.append({"ev": "End", "reraised": reraised})
     res["events"] = list(REC.events)
-    res["store"] = {s: house.store.fetch(s).value for s in prog["shares"]}
+    res["store"] = {s: (house.store.fetch(s).get(emitter.MAIN) if s in prog.get("fielded", ()) else house.store.fetch(s).value)
+                    for s in prog["shares"]}
     res["statuses"] = {t.name: STATUS.get(t.status) for t in house.framers}
     if not keep_script:
         try:
